@@ -1,1 +1,473 @@
-fn main() {}
+//! Engine `indexer` (property C18): the real `ckb_indexer` (RocksDB store, `append` /
+//! `rollback`, the RPC query handle) follows the main chain of a builder node through generated
+//! histories with reorgs exactly as `IndexerSyncService::try_loop_sync` decides, and every answer
+//! is compared with direct filters over a reference model folded from the harness's own copies
+//! of the blocks.
+//!
+//! `vindexer [--seed S] [--tier quick|thorough] [histories=N] [budget_s=N] [workers=N]`
+
+mod keys;
+mod model;
+mod oracle;
+mod workload;
+
+use ckb_indexer::verif::VerifIndexer;
+use ckb_types::core::BlockView;
+use ckb_types::prelude::*;
+use keys::Method;
+use model::{H, Model};
+use serde_json::{Value, json};
+use std::collections::{BTreeMap, HashSet, VecDeque};
+use std::sync::{Arc, Mutex};
+use std::time::{Duration, Instant};
+use vbase::{Args, KnownFindings, Report, Rng, Tier};
+use vnode::consensus::{self, ChainParams, EpochMode};
+use vnode::model::{h, hx};
+use vnode::treegen::{TreeCfg, TreeGen};
+
+const RULE: &str = "generated chain histories (forks, reorgs up to the retention depth, outputs sharing / differing in lock and type scripts with common args prefixes and trailing zero bytes, data of 0..50 bytes, cells created and consumed in one block, the same transaction at different heights on different forks) are followed by the real indexer with the decision rule of IndexerSyncService::try_loop_sync; after every append / rollback and at every followed tip get_indexer_tip, get_cells, get_cells_capacity and get_transactions (ungrouped / grouped) are compared with direct filters over a model folded from the harness's own block copies, for generated search keys (every script of the model plus absent / derived ones; lock / type; exact / prefix / default / partial; every filter kind with boundaries on real values; with_data; asc / desc; page sizes 1,2,3,7 with cursors: concatenated pages == full answer); append(b);rollback() must restore the raw key-value store and every answer; distinct = hash(method, search key JSON, indexer tip)";
+
+fn panic_store() -> &'static Mutex<BTreeMap<String, String>> {
+    static S: std::sync::OnceLock<Mutex<BTreeMap<String, String>>> = std::sync::OnceLock::new();
+    S.get_or_init(|| Mutex::new(BTreeMap::new()))
+}
+
+fn thread_key() -> String {
+    format!("{:?}", std::thread::current().id())
+}
+
+struct Hist {
+    hi: u64,
+    tg: TreeGen,
+    idx: VerifIndexer,
+    rng: Rng,
+    wl: workload::Workload,
+    keep_num: u64,
+    prune_interval: u64,
+    /// highest tip the indexer ever had (pruning is relative to it)
+    hi_water: u64,
+    /// true until a reorg deeper than the retention was followed
+    assert: bool,
+    info: Value,
+    models: VecDeque<(H, Arc<Model>)>,
+    keys_per_tip: usize,
+    keys_per_step: usize,
+}
+
+impl Hist {
+    fn block(&self, x: &H) -> Arc<BlockView> {
+        Arc::clone(&self.tg.rc.get(x).block)
+    }
+
+    /// The model at `tip`: a fold of the harness's copies of the blocks genesis..=tip.
+    fn model_at(&mut self, tip: &H) -> Arc<Model> {
+        if let Some((_, m)) = self.models.iter().find(|(x, _)| x == tip) {
+            return Arc::clone(m);
+        }
+        let rec = self.tg.rc.get(tip);
+        let parent = rec.parent;
+        let m = if rec.number > 0 && self.models.iter().any(|(x, _)| *x == parent) {
+            let pm = self.models.iter().find(|(x, _)| *x == parent).unwrap().1.clone();
+            let mut m = (*pm).clone();
+            m.apply(&rec.block);
+            m
+        } else {
+            let path = self.tg.rc.path(tip);
+            let blocks: Vec<Arc<BlockView>> = path.iter().map(|x| self.block(x)).collect();
+            Model::fold(blocks.iter().map(|b| b.as_ref()))
+        };
+        let m = Arc::new(m);
+        self.models.push_back((*tip, Arc::clone(&m)));
+        if self.models.len() > 24 {
+            self.models.pop_front();
+        }
+        m
+    }
+
+    fn idx_tip(&self) -> Option<(u64, H)> {
+        self.idx.tip().expect("indexer tip").map(|(n, x)| (n, h(&x)))
+    }
+
+    /// Harness self-check: the engine's own fold agrees with RefChain's live-cell set.
+    fn cross_check_model(&mut self, tip: &H, r: &mut Report) {
+        let m = self.model_at(tip);
+        let st = self.tg.rc.replay(tip);
+        let ok = m.live.len() == st.cells.len()
+            && m.live.iter().all(|(k, c)| {
+                st.cells.get(k).map(|s| s.output == c.output && s.data == c.data && s.block_number == c.block_number && s.tx_index == c.tx_index).unwrap_or(false)
+            });
+        if !ok {
+            r.inconclusive("harness: the engine's live-cell fold differs from RefChain::replay");
+        }
+        r.count("model_cross_checks");
+    }
+
+    fn oracle(&mut self, r: &mut Report, keyset: &mut HashSet<u64>, n_keys: usize) {
+        let Some((_, tip)) = self.idx_tip() else {
+            return;
+        };
+        if !self.tg.rc.contains(&tip) {
+            if self.assert {
+                r.violation("indexer_tip.unknown_block", "the indexer reports a tip that was never appended".into(), json!({"history": self.info}));
+            }
+            return;
+        }
+        let m = self.model_at(&tip);
+        let pool = keys::script_pool(&m);
+        let mut krng = self.rng.fork(0x6b);
+        let ks = keys::gen_keys(&mut krng, &m, &pool, n_keys);
+        let hd = self.idx.handle();
+        let mut ctx = oracle::Ctx { hd: &hd, m: &m, r, rng: &mut krng, hist: &self.info, keyset, assert: self.assert };
+        ctx.check_tip();
+        for (method, sk) in &ks {
+            ctx.check(*method, sk);
+        }
+    }
+
+    /// `append(b); rollback()` restores the raw store and every answer.
+    fn rollback_exactness(&mut self, b: &BlockView, r: &mut Report) {
+        let Some((_, tip)) = self.idx_tip() else { return };
+        let m = self.model_at(&tip);
+        let pool = keys::script_pool(&m);
+        let mut krng = self.rng.fork(0x72);
+        let ks = keys::gen_keys(&mut krng, &m, &pool, 14);
+        let hd = self.idx.handle();
+        let d0 = self.idx.dump();
+        let a0 = oracle::snapshot_answers(&hd, &ks);
+        self.idx.append(b).expect("append");
+        self.idx.rollback().expect("rollback");
+        let d1 = self.idx.dump();
+        let a1 = oracle::snapshot_answers(&hd, &ks);
+        r.count("rollback_checks");
+        r.eval();
+        // did `append` prune? (`prune()`: every prune_interval blocks, once tip > keep_num + 1;
+        // it deletes old ConsumedOutPoint / TxHash / Header rows irreversibly)
+        let pruned = b.number() % self.prune_interval == 0 && b.number() > self.keep_num + 1;
+        if pruned {
+            r.count("rollback_checks.with_prune_in_between");
+        }
+        let name = |p: u8| match p {
+            0 => "OutPoint",
+            32 => "ConsumedOutPoint",
+            64 => "CellLockScript",
+            96 => "CellTypeScript",
+            128 => "TxLockScript",
+            160 => "TxTypeScript",
+            192 => "TxHash",
+            224 => "Header",
+            _ => "unknown",
+        };
+        let s0: HashSet<&(Vec<u8>, Vec<u8>)> = d0.iter().collect();
+        let s1: HashSet<&(Vec<u8>, Vec<u8>)> = d1.iter().collect();
+        let mut lost: BTreeMap<&'static str, Vec<String>> = BTreeMap::new();
+        let mut added: BTreeMap<&'static str, Vec<String>> = BTreeMap::new();
+        let inputs: HashSet<Vec<u8>> = b.transactions().iter().skip(1).flat_map(|t| t.input_pts_iter().map(|op| op.as_slice().to_vec()).collect::<Vec<_>>()).collect();
+        let mut leftovers = 0u64;
+        for kv in d0.iter().filter(|kv| !s1.contains(kv)) {
+            let p = kv.0.first().copied().unwrap_or(255);
+            if pruned && matches!(p, 32 | 192 | 224) {
+                continue;
+            }
+            lost.entry(name(p)).or_default().push(format!("{}=>{}", vbase::hex(&kv.0), vbase::hex(&kv.1)));
+        }
+        for kv in d1.iter().filter(|kv| !s0.contains(kv)) {
+            let p = kv.0.first().copied().unwrap_or(255);
+            // a ConsumedOutPoint row of the rolled-back block itself: invisible to every query,
+            // deleted by a later prune — recorded as an observation, not demanded by C18
+            if p == 32 && kv.0.len() == 1 + 8 + 36 && kv.0[1..9] == b.number().to_be_bytes() && inputs.contains(&kv.0[9..]) {
+                leftovers += 1;
+                continue;
+            }
+            added.entry(name(p)).or_default().push(format!("{}=>{}", vbase::hex(&kv.0), vbase::hex(&kv.1)));
+        }
+        if leftovers > 0 {
+            r.count_n("obs.rollback_leaves_consumed_out_point_rows_of_the_rolled_back_block", leftovers);
+        }
+        if self.assert && (!lost.is_empty() || !added.is_empty()) {
+            let kinds: Vec<&str> = lost.keys().chain(added.keys()).cloned().collect::<std::collections::BTreeSet<_>>().into_iter().collect();
+            r.violation(
+                &format!("rollback.kv_not_restored@{}", kinds.join("+")),
+                format!("raw store after append(#{});rollback() differs from the store before: rows lost {:?}, rows added {:?}", b.number(), lost.iter().map(|(k, v)| (k, v.len())).collect::<Vec<_>>(), added.iter().map(|(k, v)| (k, v.len())).collect::<Vec<_>>()),
+                json!({"history": self.info, "indexer_tip_before": format!("#{} 0x{}", self.tg.rc.get(&tip).number, vbase::hex(&tip)),
+                       "block": format!("#{} 0x{}", b.number(), vbase::hex(b.hash().as_slice())), "pruned_in_between": pruned,
+                       "lost": lost.iter().map(|(k, v)| (k.to_string(), v.iter().take(6).cloned().collect::<Vec<_>>())).collect::<BTreeMap<_, _>>(),
+                       "added": added.iter().map(|(k, v)| (k.to_string(), v.iter().take(6).cloned().collect::<Vec<_>>())).collect::<BTreeMap<_, _>>()}),
+            );
+        }
+        r.eval();
+        if self.assert && a0 != a1 {
+            let i = a0.iter().zip(a1.iter()).position(|(x, y)| x != y).unwrap_or(0);
+            r.violation(
+                "rollback.answers_not_restored",
+                format!("an answer given before append(#{}) differs after append;rollback()", b.number()),
+                json!({"history": self.info, "block": format!("#{} 0x{}", b.number(), vbase::hex(b.hash().as_slice())),
+                       "before": a0.get(i), "after": a1.get(i)}),
+            );
+        }
+    }
+
+    /// Follow the builder's main chain with the decision rule of
+    /// `IndexerSyncService::try_loop_sync`: tip (n, h): block n+1 of the main chain missing =>
+    /// stop; its parent is h => append; otherwise rollback. No tip => append block 0.
+    fn sync(&mut self, r: &mut Report, keyset: &mut HashSet<u64>) {
+        let main_tip = self.tg.tip();
+        let mut rolled = 0u64;
+        let mut appended = 0u64;
+        let mut steps = 0u64;
+        loop {
+            steps += 1;
+            if steps > 2_000 {
+                r.inconclusive("harness: sync loop did not terminate");
+                break;
+            }
+            match self.idx_tip() {
+                None => {
+                    let g = self.block(&self.tg.rc.genesis.clone());
+                    self.idx.append(&g).expect("append genesis");
+                    r.count("blocks_appended");
+                    appended += 1;
+                }
+                Some((n, hash)) => match self.tg.rc.ancestor_at(&main_tip, n + 1) {
+                    None => break,
+                    Some(bh) => {
+                        let b = self.block(&bh);
+                        if h(&b.parent_hash()) == hash {
+                            if self.rng.chance(300, 1000) {
+                                self.rollback_exactness(&b, r);
+                            }
+                            self.idx.append(&b).expect("append");
+                            r.count("blocks_appended");
+                            appended += 1;
+                            self.hi_water = self.hi_water.max(b.number());
+                        } else {
+                            if n + self.keep_num <= self.hi_water && self.assert {
+                                // would leave the retention: only observed from here on
+                                self.assert = false;
+                                r.count("histories_leaving_retention");
+                            }
+                            self.idx.rollback().expect("rollback");
+                            r.count("blocks_rolled_back");
+                            rolled += 1;
+                        }
+                    }
+                },
+            }
+            // after every single step (cheap)
+            let k = self.keys_per_step;
+            self.oracle(r, keyset, k);
+        }
+        if rolled > 0 {
+            r.count("reorgs_followed");
+            r.count(&format!("reorg_depth.{}", if rolled > 9 { "10+".to_string() } else { rolled.to_string() }));
+            if rolled == self.keep_num {
+                r.count("reorgs_of_exactly_keep_num");
+            }
+        }
+        let _ = appended;
+        match self.idx_tip() {
+            Some((_, t)) if t == main_tip => r.count("tips_followed"),
+            _ => r.count("rounds_with_indexer_on_stale_fork"),
+        }
+        if let Some((_, t)) = self.idx_tip() {
+            if self.tg.rc.contains(&t) {
+                self.cross_check_model(&t, r);
+            }
+        }
+        let k = self.keys_per_tip;
+        self.oracle(r, keyset, k);
+    }
+}
+
+fn run_history(seed: u64, hi: u64, tier: Tier, deadline: Instant, r: &mut Report, keyset: &mut HashSet<u64>) {
+    let mut rng = Rng::new(seed.wrapping_mul(0x9E37_79B9_7F4A_7C15) ^ (hi + 1).wrapping_mul(0xD1B5_4A32_D192_ED03));
+    // every sixth history also makes reorgs deeper than the retention: observation only
+    let deep = hi % 6 == 5;
+    let mut params = ChainParams::default();
+    params.window = *rng.pick(&[(1u64, 3u64), (1, 3), (1, 2), (2, 4)]);
+    params.issued_cells = 40;
+    params.epoch = EpochMode::Permanent { genesis_len: 6 + rng.below(20), epoch_len: 4 + rng.below(12) };
+    let gi = consensus::build(&params);
+    let cfg = TreeCfg {
+        n_blocks: 0,
+        invalid: 0,
+        max_new_txs: 1,
+        conflict_pm: 0,
+        chain_pm: 300,
+        uncle_pm: 150,
+        junk_proposals: 1,
+        ts_step_max: 10_000,
+        ..Default::default()
+    };
+    let tg = TreeGen::new(&gi, cfg, rng.next_u64());
+    let keep_num = rng.range(4, 20);
+    let prune_interval = rng.range(1, 8);
+    let n_blocks = tier.pick(45 + rng.below(50), 90 + rng.below(160));
+    let fork_pm = 120 + rng.below(200);
+    let dir = vnode::node::scratch_dir().join(format!("indexer-{hi}"));
+    let idx = VerifIndexer::new(&dir, keep_num, prune_interval);
+    let info = json!({"history": hi, "window": [params.window.0, params.window.1], "keep_num": keep_num, "prune_interval": prune_interval,
+                      "planned_blocks": n_blocks, "fork_pm": fork_pm, "reorgs_deeper_than_retention": deep});
+    let mut hst = Hist {
+        hi,
+        tg,
+        idx,
+        rng: rng.fork(1),
+        wl: workload::Workload::new(seed ^ (hi << 8)),
+        keep_num,
+        prune_interval,
+        hi_water: 0,
+        assert: true,
+        info,
+        models: VecDeque::new(),
+        keys_per_tip: tier.pick(26, 40),
+        keys_per_step: tier.pick(5, 8),
+    };
+    r.count("histories");
+    hst.sync(r, keyset);
+    let mut made = 0u64;
+    while made < n_blocks {
+        if Instant::now() > deadline {
+            r.count("histories_cut_by_budget");
+            break;
+        }
+        let tip = hst.tg.tip();
+        let tip_n = hst.tg.rc.get(&tip).number;
+        let safe_min = hst.hi_water.saturating_sub(keep_num);
+        let mut parent = tip;
+        if tip_n > 0 && rng.chance(fork_pm, 1000) {
+            if deep && hst.hi_water > keep_num + 4 && rng.chance(120, 1000) && tip_n > 1 {
+                // beyond the retention (observation only)
+                let lo = safe_min.saturating_sub(1 + rng.below(5)).min(tip_n - 1);
+                parent = hst.tg.rc.ancestor_at(&tip, lo).unwrap();
+                r.count("gen.forks_beyond_retention");
+            } else if tip_n > safe_min {
+                let maxd = tip_n - safe_min;
+                let d = if rng.chance(150, 1000) { maxd } else { 1 + rng.below(maxd.min(8)) };
+                parent = hst.tg.rc.ancestor_at(&tip, tip_n - d).unwrap();
+                r.count("gen.forks");
+            }
+        }
+        let k = rng.usize_below(4);
+        let mut extras = hst.wl.gen_txs(&hst.tg, &mut rng, &parent, k);
+        if rng.chance(250, 1000) {
+            let rev = hst.wl.revivable(&hst.tg, &mut rng, &parent, 2);
+            r.count_n("gen.reproposed_on_another_fork", rev.len() as u64);
+            extras.extend(rev);
+        }
+        r.count_n("gen.my_txs_proposed", extras.len() as u64);
+        let x = hst.tg.extend_ex(&parent, &extras);
+        made += 1;
+        // what got committed
+        let b = hst.block(&x);
+        let txs = b.transactions();
+        let in_block: HashSet<H> = txs.iter().map(|t| h(&t.hash())).collect();
+        for t in txs.iter().skip(1) {
+            r.count("committed.txs");
+            if hst.wl.mine.contains_key(&h(&t.hash())) {
+                r.count("committed.my_txs");
+                if t.outputs().into_iter().any(|o| o.type_().to_opt().is_some()) {
+                    r.count("committed.my_txs_with_type_script_outputs");
+                }
+            }
+            for op in t.input_pts_iter() {
+                if in_block.contains(&h(&op.tx_hash())) {
+                    r.count("committed.cells_created_and_consumed_in_one_block");
+                }
+            }
+        }
+        hst.sync(r, keyset);
+    }
+    if hi < 3 {
+        r.sample(json!({"history": hst.info, "blocks_generated": made, "indexer_tip": hst.idx_tip().map(|(n, x)| format!("#{n} {}", hx(&x))),
+                        "model_live_cells": hst.idx_tip().map(|(_, t)| hst.model_at(&t).live.len()), "asserting_until_end": hst.assert}));
+    }
+    let _ = hst.hi;
+}
+
+fn worker(seed: u64, tier: Tier, args: &Args, his: Vec<u64>, deadline: Instant) -> (Value, HashSet<u64>) {
+    let mut r = Report::new("C18", "exploration", args, RULE);
+    let mut keyset = HashSet::new();
+    for hi in his {
+        if Instant::now() > deadline {
+            r.count("histories_skipped_by_budget");
+            continue;
+        }
+        let res = std::panic::catch_unwind(std::panic::AssertUnwindSafe(|| run_history(seed, hi, tier, deadline, &mut r, &mut keyset)));
+        if res.is_err() {
+            let msg = panic_store().lock().unwrap().remove(&thread_key()).unwrap_or_default();
+            if msg.contains("/repo/util/indexer") || msg.contains("/repo/util/indexer-sync") {
+                r.violation(
+                    &format!("indexer.panic@{}", msg.split(" :: ").next().unwrap_or("?")),
+                    format!("the indexer panicked: {msg}"),
+                    json!({"history": hi, "seed": seed, "panic": msg}),
+                );
+            } else {
+                r.inconclusive(&format!("harness panic in history {hi}: {msg}"));
+            }
+        }
+    }
+    (r.to_json(&KnownFindings::load()), keyset)
+}
+
+fn main() {
+    let args = Args::parse();
+    let _ = vnode::node::scratch_dir();
+    vnode::node::set_time(ChainParams::default().genesis_timestamp + 3_000_000_000);
+    std::panic::set_hook(Box::new(|info| {
+        let loc = info.location().map(|l| format!("{}:{}", l.file(), l.line())).unwrap_or_default();
+        let msg = info.payload().downcast_ref::<&str>().map(|s| s.to_string()).or_else(|| info.payload().downcast_ref::<String>().cloned()).unwrap_or_default();
+        eprintln!("panic at {loc}: {msg}");
+        panic_store().lock().unwrap().insert(thread_key(), format!("{loc} :: {msg}"));
+    }));
+    let mut report = Report::new("C18", "exploration", &args, RULE);
+    let n_hist = args.get_u64("histories", args.tier.pick(12, 96));
+    let workers = args.get_u64("workers", args.tier.pick(6, 8)).max(1);
+    let deadline = Instant::now() + Duration::from_secs(args.get_u64("budget_s", args.tier.pick(55, 780)));
+    let only: Option<u64> = args.extra.get("only").and_then(|s| s.parse().ok());
+    let mut keyset: HashSet<u64> = HashSet::new();
+    let results: Vec<(Value, HashSet<u64>)> = std::thread::scope(|s| {
+        let mut hs = vec![];
+        for w in 0..workers {
+            let his: Vec<u64> = (0..n_hist).filter(|hi| hi % workers == w && only.map(|o| o == *hi).unwrap_or(true)).collect();
+            let args = &args;
+            hs.push(s.spawn(move || worker(args.seed, args.tier, args, his, deadline)));
+        }
+        hs.into_iter().map(|j| j.join().expect("worker")).collect()
+    });
+    for (j, ks) in results {
+        report.merge_json(&j);
+        keyset.extend(ks);
+    }
+    report.note("distinct_search_keys", json!(keyset.len()));
+    report.note("rich_indexer", json!("NOT covered: ckb-rich-indexer's AsyncRichIndexer / SQLXPool cannot be constructed from outside the crate (private modules `indexer` and `store`; AsyncRichIndexer is pub(crate) and only re-exported under cfg(test)); a #[cfg(ckb_verif)] hook is needed"));
+    for c in [
+        "histories", "blocks_appended", "blocks_rolled_back", "reorgs_followed", "rollback_checks", "tips_followed",
+        "queries.get_indexer_tip", "queries.get_cells.exact", "queries.get_cells.prefix", "queries.get_cells.default",
+        "queries.get_cells_capacity.exact", "queries.get_cells_capacity.prefix", "queries.get_transactions.exact",
+        "queries.get_transactions.prefix", "queries.grouped", "queries.with_data_false", "queries.order_desc",
+        "queries.by_lock", "queries.by_type", "queries.filter.script", "queries.filter.script_len_range",
+        "queries.filter.output_data.prefix", "queries.filter.output_data.exact", "queries.filter.output_data.partial",
+        "queries.filter.output_data.default", "queries.filter.output_data_len_range", "queries.filter.output_capacity_range",
+        "queries.filter.block_range", "queries.filter.none", "walks_with_several_pages", "model_cross_checks",
+    ] {
+        report.require(c, 1);
+    }
+    report.require("blocks_appended", args.tier.pick(150, 1500));
+    report.require("blocks_rolled_back", args.tier.pick(10, 100));
+    report.require("reorgs_followed", args.tier.pick(4, 40));
+    report.require("pages_walked", args.tier.pick(500, 5000));
+    report.require("answers.nonempty", args.tier.pick(300, 3000));
+    report.require("committed.my_txs", args.tier.pick(40, 400));
+    report.require("committed.my_txs_with_type_script_outputs", args.tier.pick(15, 150));
+    report.require("committed.cells_created_and_consumed_in_one_block", args.tier.pick(5, 50));
+    report.require("rollback_checks", args.tier.pick(20, 200));
+    report.assume("RocksDB write-batch atomicity and snapshot isolation are trusted");
+    report.assume("blocks are valid main-chain blocks of a real builder node (dao / reward fields by production calculators)");
+    report.assume("the RPC documentation does not define the order of answers: assumed (observed) ascending (block number, tx index, output index) for cells and (block number, tx index, io index, input before output) for transaction entries WITHIN one script; the relative order of different scripts in a prefix search is not asserted; desc is required to be the reverse of asc; grouped answers are only queried in exact mode (documented: prefix search only when group_by_transaction is false)");
+    report.assume("`script_len_range` is taken over len(code_hash)+len(hash_type)+len(args) of the filter-side script, 0 when the cell has no type script (observed; the documentation does not define it)");
+    report.assume("script_search_mode=partial may be rejected by this module (documented as prefix | exact); if it is answered the answer must be the partial match");
+    report.assume("the driver mirrors IndexerSyncService::try_loop_sync: when the main chain has no block at indexer_tip+1 the indexer stays where it is (possibly on a stale fork); answers are then compared with the model of the indexer's own tip");
+    report.assume("ConsumedOutPoint rows of a rolled-back block that rollback() leaves behind are invisible to every query and removed by a later prune: counted as an observation, not a violation");
+    let code = report.finish(None);
+    vnode::node::exit(code)
+}
